@@ -483,9 +483,20 @@ def oracle(names, cols, spec):
                          'score_min': float(np.nanmin(s)) if not np.isnan(s).all() else 'nan',
                          'score_max': float(np.nanmax(s)) if not np.isnan(s).all() else 'nan'},
                         'unit diagonal (up to a ridge of order 1e-7) for every non-constant column'))
+    # cause tag: a NON-constant score column whose spread is tiny relative to its magnitude makes the Pearson
+    # computation ill-conditioned (entries only accurate to ~eps * kappa^2), e.g. a two-valued column under a
+    # degenerate (U-shaped, a,b ~ 1e-11) Beta fit
+    with np.errstate(all='ignore'):
+        fin = np.isfinite(Sref).all(axis=0)
+        zc = Sref - np.where(fin, Sref.mean(axis=0), 0.0)
+        ssq = np.sqrt((zc * zc).sum(axis=0))
+        kappa = np.where(fin & (ssq > 0), np.sqrt((Sref * Sref).sum(axis=0)) / np.where(ssq > 0, ssq, 1.0), 1.0)
+    cause = ':near-constant-scores' if bool(np.any(kappa > 1e3)) else ''
     ev = np.linalg.eigvalsh((C + C.T) / 2)
     if ev[0] < -1e-9:
-        out.append(('fit:not-psd', float(ev[0]), 'eigvalsh >= -1e-9'))
+        out.append(('fit:not-psd' + cause, {'eig_min': float(ev[0]), 'cond_recorded': calls[0][1] if calls else None,
+                                            'score_kappa': [float(v) for v in kappa]},
+                    'positive semi-definite: eigvalsh >= -1e-9'))
     # "a numerically singular matrix is regularised": the code's own notion of numerically singular
     import sys
     with np.errstate(all='ignore'):
@@ -542,7 +553,8 @@ def oracle(names, cols, spec):
         if p.shape != (5,) or np.isnan(p).any() or (p < 0).any():
             out.append(('pdf:nan', p.tolist(), 'density evaluation works: 5 non-negative numbers'))
     except Exception as e:  # noqa
-        out.append(('pdf:raises', f'{type(e).__name__}: {str(e)[:160]}',
+        sub = (':not-psd' + cause) if 'positive semidefinite' in str(e) else ''
+        out.append(('pdf:raises' + sub, f'{type(e).__name__}: {str(e)[:160]}',
                     'density evaluation works after regularisation'))
     return out
 
@@ -642,7 +654,16 @@ def fixed_probes():
         (['x', 'k'], [a, np.full(25, 0.0)], ['default'], ['probe:default-constant']),
         (['u', 'v', 'w'], [b, a, a + b], ['str', 'GaussianKDE'], ['probe:rank-deficient']),
         (['p', 'q'], [p, 2 * p + 0.5 * b], ['class', 'BetaUnivariate'], ['probe:beta-offset']),
+        (['a', 'k2', 'd', 'k1'], _binary_beta_probe(), ['inst', 'BetaUnivariate'], ['probe:binary-beta']),
     ] + tiny_and_outlier_probes()
+
+
+def _binary_beta_probe():
+    r = np.random.RandomState(0)
+    a = r.rand(21) - 0.3
+    k1 = np.full(21, 5.0)
+    k1[3] = k1[17] = 6.0                     # a two-valued (indicator-like) column
+    return [a, -3 * k1 + 1, a.copy(), k1]
 
 
 def tiny_and_outlier_probes():
